@@ -391,6 +391,7 @@ class Task(Value, Generic[P, R]):
             compat=self.compat,
             script=self.script,
             source=self.source,
+            hash_includes=self._hash_includes,
             task_options_base=self._task_options_base,
             task_options_override=new_task_options_update,
         )
@@ -418,6 +419,7 @@ class Task(Value, Generic[P, R]):
             compat=self.compat,
             script=self.script,
             source=self.source,
+            hash_includes=self._hash_includes,
             task_options_base=self._task_options_base,
             task_options_override=new_task_options_update,
             export_options=export_options,
